@@ -341,9 +341,9 @@ def resume_probe(run, tier, rng):
         work = Path(tempfile.mkdtemp(prefix="c12_", dir=run.scratch.dir))
         cfg = dict(clustering=False, random_state=seed, n_particles=12, output_dir=str(work), output_label="r")
         s = make_sampler(rng, False, **dict(cfg))
-        what = dict(probe="resume-with-larger-n_total", cfg={k: v for k, v in cfg.items() if k != "output_dir"}, first_n_total=24, second_n_total=90)
+        what = dict(probe="resume-with-larger-n_total", cfg={k: v for k, v in cfg.items() if k != "output_dir"}, first_n_total=60, second_n_total=90)
         try:
-            s.run(n_total=24, progress=False, save_every=1)
+            s.run(n_total=60, progress=False, save_every=1)    # several iterations at beta = 1: numbered checkpoints exist there
             ck = work / "r_final.state"
             # resumed by a sampler with ANOTHER number of particles: the stored batches now have unequal sizes
             s2 = make_sampler(rng, False, **dict(cfg, n_particles=30))
@@ -353,6 +353,18 @@ def resume_probe(run, tier, rng):
             continue
         run.case(key=("resume", rep), nontrivial=True)
         check_run(run, s2, 90, what)
+        # a resume that has nothing left to do: the last numbered checkpoint (already at beta = 1) with an n_total below the ESS it holds
+        cks = sorted(work.glob("r_[0-9]*.state"), key=lambda p_: int(p_.stem.split("_")[1]))
+        if cks:
+            s3 = make_sampler(rng, False, **dict(cfg))
+            w3 = dict(what, probe="resume-with-nothing-left-to-do", checkpoint=cks[-1].name, second_n_total=3)
+            try:
+                s3.run(n_total=3, progress=False, resume_state_path=str(cks[-1]))
+                run.case(key=("resume-noop", rep), nontrivial=True)
+                run.count(f"no-op resume: history length {len(s3.state.get_history('beta'))} (checkpoint iteration {cks[-1].stem.split('_')[1]})")
+                check_run(run, s3, 3, w3)
+            except Exception as e:
+                run.fail("run-raises", f"no-op resume raised {type(e).__name__}: {e}", **w3)
         # evidence() against an independent evaluation of the mixture formula (n_t/N weights) on the stored history
         import c04
         h = s2.state._history
